@@ -9,6 +9,7 @@ import QuiverModel.Lemmas.Packaging.Mark
 import QuiverModel.Lemmas.Packaging.Reach
 import QuiverModel.Lemmas.Packaging.ReachTransfer
 import QuiverModel.Lemmas.Packaging.SweepId
+import QuiverModel.Lemmas.Packaging.ShakeResources
 import QuiverModel.Lemmas.Packaging.FuelSuffices
 import QuiverModel.Core.Packaging.Merge
 import QuiverModel.Lemmas.Packaging.MergeImport
@@ -645,9 +646,9 @@ theorem treeShake_preserves_behaviour {P P' : Prog} {e : Nat} {out : ShakeOut} (
   have hρ := treeShake_isRenaming h hfns hconsts htuples hbuiltins htypes hc hc' ht
   exact run_commutes_with_renaming hρ hB hrun (start_related hρ ha) hsafe
 
-/-- Statement of (T2) idempotence and (T3 ⊇) in one formula, for the record. Everything in it is now proved below
-    except the `resources` field inside `bytecodeDiff`: `treeShake_idempotent` (five tables, entry, identity remap
-    tables — every program and entry), `treeShake_keeps_everything_reachable` (`Closed`),
+/-- Statement of (T2) idempotence and (T3 ⊇) in one formula. PROVED below: `treeShake_statement`, from
+    `treeShake_idempotent` (five tables, entry, identity remap tables — every program and entry),
+    `treeShake_idempotent_bytecode` (the resource-name list too: `second_shake_resources`), `treeShake_keeps_everything_reachable` (`Closed`),
     `treeShake_keeps_exactly_reachable` (T3 both directions), `treeShake_fuel_suffices`; (T1) is
     `treeShake_preserves_behaviour` (modulo `TablesAgree`) and `C10.treeShake_preserves_behaviour_computed`
     (Theorems/C10Tables.lean: `TablesAgree` derived from `TablesComputed` + `PresenceKept`). The driver still checks
@@ -756,7 +757,7 @@ theorem treeShake_second_shake_drops_nothing {P : Prog} {e : Nat} {out out2 : Sh
     entry and identity remap tables — for every program and entry. (`treeShake_second_shake_drops_nothing`: all ids
     are marked again; the marks are duplicate-free and inside the tables, so each sorted mark list is `range n`
     (`sorted_eq_range`); a sweep under identity tables is the identity (`sweep_full_identity`).) The `resources` list
-    (names, re-sorted by the sweep) is not covered. -/
+    is `treeShake_idempotent_bytecode`. -/
 theorem treeShake_idempotent {P : Prog} {e : Nat} {out out2 : ShakeOut}
     (h : treeShake P e = some out) (h2 : treeShake out.prog out.entry = some out2) :
     out2.prog.fns = out.prog.fns ∧ out2.prog.consts = out.prog.consts ∧ out2.prog.tuples = out.prog.tuples ∧
@@ -795,6 +796,22 @@ theorem treeShake_fuel_suffices (P : Prog) (e : Nat) :
   refine ⟨m, hm, ?_⟩
   unfold treeShake treeShakeWith
   rw [hm]
+
+/-- **(T2, complete) the second shake returns the same bytecode**: all six tables (the resource-name list included),
+    i.e. `bytecodeDiff = none`. -/
+theorem treeShake_idempotent_bytecode {P : Prog} {e : Nat} {out out2 : ShakeOut}
+    (h : treeShake P e = some out) (h2 : treeShake out.prog out.entry = some out2) :
+    bytecodeDiff out2.prog out.prog = none := by
+  obtain ⟨a, b, c, d, f, _⟩ := treeShake_idempotent h h2
+  have r := second_shake_resources (treeShake_marks h) (treeShake_sweep h) (treeShake_marks h2) (treeShake_sweep h2)
+  simp [bytecodeDiff, a, b, c, d, f, r]
+
+/-- **`TreeShakeStatement` holds**: (T2) idempotence and (T3 ⊇) for every program and entry. -/
+theorem treeShake_statement : TreeShakeStatement := by
+  intro P e out h
+  refine ⟨fun out2 h2 => ?_, (treeShake_keeps_everything_reachable h).2⟩
+  obtain ⟨_, _, _, _, _, he, hf, _⟩ := treeShake_idempotent h h2
+  exact ⟨treeShake_idempotent_bytecode h h2, he, hf⟩
 
 /-- A spawning program in miniature: the entry spawns function 1, whose callable type (entry 1) receives
     and returns `'int`; the process type of the pids it creates is entry 2 — named by no instruction
